@@ -3241,13 +3241,15 @@ func Sweep(r *hx.Rand, dim string, n int) (gx.G, []string) {
 		// a chain N0 -> N1 | a, …, N_last -> b | ε : FIRST(N0) gets b only through all of them
 		ns := numbered("N", n)
 		g = gx.G{Terms: []string{"a", "b", "c"}, NonTerms: ns, Start: ns[0]}
-		for i := 0; i+1 < n; i++ {
+		// (listed from the far end: the Model iterates in list order and is through in two passes, the Go code iterates its
+		// hash tables in shuffled order and needs as many passes as the shuffle makes it need)
+		g.Prods = append(g.Prods, gx.P{Head: ns[n-1], Body: []string{"b"}}, gx.P{Head: ns[n-1]})
+		for i := n - 2; i >= 0; i-- {
 			g.Prods = append(g.Prods, gx.P{Head: ns[i], Body: []string{ns[i+1], "c"}})
 			if i%7 == 0 {
 				g.Prods = append(g.Prods, gx.P{Head: ns[i], Body: []string{"a"}})
 			}
 		}
-		g.Prods = append(g.Prods, gx.P{Head: ns[n-1], Body: []string{"b"}}, gx.P{Head: ns[n-1]})
 		qs = append(qs, "nullable", "ll1", "table")
 		for _, x := range late(ns) {
 			qs = append(qs, "first "+x, "follow "+x, "cell "+x+" b", "cell "+x+" c")
